@@ -16,6 +16,7 @@ line each; table lines `dec`/`unp`/`lzu`/`excl` fill the parameter tables for th
                            → `none` | `some <hex>`   (a parameter call the real run never made answers `none`)
   zip <method> <bitflag> <comp> <uncomp> <crc> <tailhex|none> <inflated hex|none>
   bzg <streamcrc8> (<hdrcrc8> <hex>)*   → bzDepack
+  xzg <hdr12> <blockhdr> <check8> <index> <indexcrc8> <footer12> <payload>  → xzAccept (one piece)
 -/
 open Xmp Xmp.Crc Xmp.Gates
 
@@ -121,6 +122,10 @@ partial def loop (h : IO.FS.Stream) (t : Tabs) : IO Unit := do
                           | some o => if o.length ≤ cap then some o else none
                           | none => none) missMark st (if tl == "none" then none else some (parseHex tl))
     IO.println (showRes r); loop h {}
+  | ["xzg", hdr, bh, check, index, icrc, footer, payload] =>
+    -- single-block xz stream, the decoder's output given as one piece
+    IO.println (showRes (xzAccept (parseHex hdr) (parseHex bh) [parseHex payload] (parseHexNat check) (parseHex index)
+      (parseHexNat icrc) (parseHex footer))); loop h {}
   | "bzg" :: sc :: rest =>
     let rec blocks : List String → List (BitVec 32 × Bytes)
       | c :: d :: more => (BitVec.ofNat 32 (parseHexNat c), parseHex d) :: blocks more
